@@ -53,6 +53,7 @@ def prepare_reference(prop):
     bdir = core.build_dir(prop)
     gen_ref.gen_expected(bdir)
     gen_ref.gen_expected_hmac(bdir)
+    gen_ref.gen_expected_preset(bdir)       # validates the written-out compression functions against hashlib first
     tables = gen_ref.parse_streebog_tables(core.REPO)       # TableError -> harness error (exit 2)
     gen_ref.gen_streebog_tables(bdir, tables)
     src = os.path.join(HERE, 'ref_streebog.c')
